@@ -381,6 +381,134 @@ fn b_burst_tagger(src: &mut Src, env: &Env) -> Case {
 // ---------------------------------------------------------------------------
 // Hand-written stream blocks.
 
+/// Delay whose delay is changed once in mid-stream through `set_delay()`.
+/// The wrapper feeds the real Delay through an internal stream so that it
+/// knows how many input samples the Delay had consumed when the change was
+/// made (the reference needs that position). The change is only applied once
+/// the Delay has consumed input, i.e. after the initial padding is out: before
+/// that `set_delay` replaces the pending padding and upstream's own test for
+/// it is commented out ("TODO: fix"), so no behaviour is specified there.
+struct DelayPoke {
+    inner: Delay<u32>,
+    src: rustradio::stream::ReadStream<u32>,
+    mid_w: rustradio::stream::WriteStream<u32>,
+    mid_cap: usize,
+    copied: usize,
+    calls: usize,
+    change_at_call: usize,
+    new_delay: usize,
+    /// (input samples consumed by the Delay at the change).
+    changed: std::sync::Arc<std::sync::Mutex<Option<usize>>>,
+}
+impl rustradio::block::BlockName for DelayPoke {
+    fn block_name(&self) -> &str {
+        "Delay+set_delay"
+    }
+}
+impl rustradio::block::BlockEOF for DelayPoke {
+    fn eof(&mut self) -> bool {
+        self.src.eof() && self.mid_w.free() == self.mid_cap
+    }
+}
+impl rustradio::block::Block for DelayPoke {
+    fn work(&mut self) -> rustradio::Result<rustradio::block::BlockRet> {
+        use rustradio::block::BlockRet;
+        use rustradio::stream::StreamWait;
+        self.calls += 1;
+        {
+            let (i, tags) = self.src.read_buf()?;
+            let mut o = self.mid_w.write_buf()?;
+            let n = i.len().min(o.len());
+            if n > 0 {
+                o.slice()[..n].copy_from_slice(&i.slice()[..n]);
+                let tags: Vec<_> = tags.into_iter().filter(|t| t.pos() < n).collect();
+                o.produce(n, &tags);
+                i.consume(n);
+                self.copied += n;
+            }
+        }
+        if self.calls >= self.change_at_call && self.changed.lock().unwrap().is_none() {
+            let consumed = self.copied - (self.mid_cap - self.mid_w.free());
+            if consumed > 0 {
+                self.inner.set_delay(self.new_delay);
+                *self.changed.lock().unwrap() = Some(consumed);
+            }
+        }
+        let mid_id = self.mid_w.verif_id();
+        let ret = self.inner.work()?;
+        Ok(match ret {
+            BlockRet::WaitForStream(w, _) if w.verif_id() == mid_id => BlockRet::WaitForStream(&self.src, 1),
+            other => other,
+        })
+    }
+}
+
+fn b_delay_change(src: &mut Src, env: &Env) -> Case {
+    let cap = env.cap::<u32>();
+    let n = gen_len(src, cap);
+    let d = src.below(40);
+    let newd = match src.below(4) {
+        0 => 0,
+        1 => d + src.range(1, 30),
+        _ => src.below(d + 1),
+    };
+    let change_at_call = src.range(1, 12);
+    let data = gen_u32_vec(src, n);
+    let tags = gen_tags(src, n, cap);
+    let (p, r) = StreamIn::new(data, tags);
+    let (mid_w, mid_r) = rustradio::stream::new_stream::<u32>();
+    let mid_cap = mid_w.free();
+    let (inner, o) = Delay::new(mid_r, d);
+    let changed = std::sync::Arc::new(std::sync::Mutex::new(None));
+    let blk = DelayPoke { inner, src: r, mid_w, mid_cap, copied: 0, calls: 0, change_at_call, new_delay: newd, changed: changed.clone() };
+    let mut c = Case::new("Delay+set_delay", format!("len {n} delay {d} -> {newd} from call {change_at_call}"), Box::new(blk));
+    c.ins = vec![p];
+    c.outs = vec![StreamOut::new(o)];
+    // The change position differs between the two deliveries by construction.
+    c.skip_compare = true;
+    let ch2 = changed.clone();
+    // Output index of input sample i (None: dropped by a reduced delay).
+    let map = move |ch: Option<usize>, i: usize| -> Option<usize> {
+        match ch {
+            None => Some(d + i),
+            Some(c) if i < c => Some(d + i),
+            Some(c) => {
+                if newd >= d {
+                    Some(i + newd)
+                } else if i < c + (d - newd) {
+                    None
+                } else {
+                    Some(i + newd)
+                }
+            }
+        }
+    };
+    c.reference = Some(Box::new(move |c, complete| {
+        let ch = *ch2.lock().unwrap();
+        let input = &c.in_typed::<u32>(0).data;
+        let mut exp = vec![0u32; d];
+        match ch {
+            None => exp.extend(input),
+            Some(at) => {
+                exp.extend(&input[..at]);
+                if newd >= d {
+                    exp.extend(std::iter::repeat(0u32).take(newd - d));
+                    exp.extend(&input[at..]);
+                } else {
+                    exp.extend(input.iter().skip(at + (d - newd)));
+                }
+            }
+        }
+        expect_exact("Delay+set_delay", &c.out_typed::<u32>(0).got, &exp, complete)
+    }));
+    c.tag_expect = Some(Box::new(move |c| {
+        let ch = *changed.lock().unwrap();
+        let n = c.outs[0].collected();
+        vec![in_tags::<u32>(c, 0).iter().filter_map(|t| map(ch, t.0 as usize).map(|p| (p as u64, t.1.clone(), t.2.clone()))).filter(|t| (t.0 as usize) < n).collect()]
+    }));
+    c
+}
+
 fn b_delay(src: &mut Src, env: &Env) -> Case {
     let cap = env.cap::<u32>();
     let n = gen_len(src, cap);
@@ -1287,6 +1415,7 @@ pub fn registry() -> Vec<Adapter> {
         ad!("Tee", b_tee, true, false, true),
         ad!("BurstTagger", b_burst_tagger, true, false, true),
         ad!("Delay", b_delay, true, false, true),
+        ad!("Delay+set_delay", b_delay_change, true, false, true),
         ad!("Skip", b_skip, true, false, true),
         ad!("RationalResampler", b_resampler, true, false, false),
         ad!("RtlSdrDecode", b_rtlsdr, true, false, false),
